@@ -79,11 +79,28 @@ class History:
         os.makedirs(os.path.dirname(full), exist_ok=True)
         with open(full, "w") as f:
             f.write("content %d\n" % b)
+        if self.rng.chance(1, 4):
+            # content that arrives with an old timestamp (cp -p, mv, tar x, rsync -t)
+            old = time.time() - self.rng.pick([3600, 86400, 10 * 86400])
+            os.utime(full, (old, old))
         if p not in self.known:
             self.known.append(p)
         self.events.append(["write", p, b])
         self.log.append("write %r := %d" % (p, b))
         return p
+
+    def op_bulk(self, n):
+        """many new paths at once: the change list is analysed in batches of 50 and merged, so the
+        sortedness / completeness of what is reported is only exercised beyond 100 changes"""
+        d = self.rng.pick(DIRS)
+        k = 0
+        while k < n:
+            p = "%s/bulk%d/%s%03d.txt" % (d if k % 3 else self.rng.pick(DIRS), self.rng.below(4), self.rng.pick(["f", "F", "é", "a b"]), self.rng.below(1000))
+            if p in self.known:
+                continue
+            self.op_write(p)
+            k += 1
+        self.log = self.log[:-n] + ["bulk write of %d new paths" % n]
 
     def op_delete(self, p=None):
         ex = self.existing_files()
@@ -228,6 +245,7 @@ def run_history(seed, prop, model, rep, length):
     rng = h.rng
     case = {"seed": seed, "prop": prop, "length": length}
     last_update_return = None
+    bulked = False
 
     def fail(p, kind, **kw):
         d = {"kind": kind, "case": case, "history": h.log[-40:]}
@@ -282,7 +300,12 @@ def run_history(seed, prop, model, rep, length):
         for step in range(length):
             k = rng.below(100)
             if k < 30:
-                h.op_write()
+                if not bulked and rng.chance(1, 10):
+                    bulked = True
+                    h.op_bulk(rng.range(90, 260))
+                    rep.count("bulk_writes")
+                else:
+                    h.op_write()
             elif k < 38:
                 h.op_delete()
             elif k < 45:
